@@ -158,7 +158,8 @@ class WFile:
       self._created = True
       self._f.write(data[:0])
       self._f.flush()
-    self._pending.append(data)
+    # copy: the caller may reuse its buffer (memoryview over a bytearray refilled by readinto)
+    self._pending.append(data if isinstance(data, (str, bytes)) else bytes(data))
     return len(data)
 
   def writelines(self, lines):
@@ -277,7 +278,7 @@ class FsTap:
     import errno
     tap, inj = self, self.inj
     self._saved = [(builtins, 'open', builtins.open), (io, 'open', io.open)]
-    for name in ('open', 'rename', 'replace', 'remove', 'unlink', 'rmdir', 'mkdir', 'fsync', 'fdatasync',
+    for name in ('open', 'rename', 'replace', 'link', 'symlink', 'remove', 'unlink', 'rmdir', 'mkdir', 'fsync', 'fdatasync',
                  'truncate', 'sendfile', 'close'):
       if hasattr(os, name):
         self._saved.append((os, name, getattr(os, name)))
@@ -339,6 +340,8 @@ class FsTap:
     os.close = w_os_close
     os.rename = two('rename', ('os', 'rename'))
     os.replace = two('rename', ('os', 'replace'))
+    os.link = two('rename', ('os', 'link'))        # hard link tmp -> final: the final name appears atomically
+    os.symlink = two('rename', ('os', 'symlink'))
     os.remove = one('remove', ('os', 'remove'))
     os.unlink = one('remove', ('os', 'unlink'))
     os.rmdir = one('rmdir', ('os', 'rmdir'))
